@@ -199,3 +199,22 @@ Example C09_source_rollback_examples :
   ZV.gen.PureVm.rollbackEmbedded 7 0 0 11 3 0 0 0 = GoSem.Ok (0, 0, Some 1, Some 0, Some [], Some 7) /\
   ZV.gen.PureVm.rollbackEmbedded 7 0 50 11 3 9 0 0 = GoSem.Ok (0, 9, Some 1, Some 50, None, None).
 Proof. exact rollback_examples. Qed.
+
+(* "completes or refunds", proved DIRECTLY about VM.generateEmbeddedReceive as translated from source: the call is taken
+   off the inbox first; then EITHER the context is committed (Done) with exactly the method's descendants and no error,
+   which requires the method to be found, to succeed and every descendant to pass applySend, OR nothing is committed and
+   rollbackEmbedded (the refund path above) is entered with a non-nil error: method not found (before any credit), the
+   method's own error, or the first refused descendant. There is no third way out once the send block was found. *)
+Theorem C09_source_receive_completes_or_rolls_back :
+  forall g gm rb11 rb12 amt ds me rb21 rb22 items f1 f2 r1 r2 ePop eSave eRb eAdd eDone eB eE,
+  ZV.gen.PureVm.generateEmbeddedReceive g gm rb11 rb12 amt ds me rb21 rb22 items f1 f2 = (r1, r2, ePop, eSave, eRb, eAdd, eDone, eB, eE) ->
+  ePop = Some 1 /\
+  ((g <> 0 /\ r2 = g /\ eSave = None /\ eRb = None /\ eAdd = None /\ eDone = None /\ eB = None /\ eE = None) \/
+   (g = 0 /\ eSave = Some 1 /\
+    ((eDone = Some 1 /\ eRb = None /\ eAdd = Some amt /\ eB = Some ds /\ eE = Some 0 /\
+      gm <> ZV.gen.Pure.Err_constants_ErrContractMethodNotFound /\ me = 0 /\ Forall (fun v => v = 0) (verdicts items) /\ r1 = f1 /\ r2 = f2) \/
+     (eDone = None /\ eB = None /\ eE = None /\ exists e, eRb = Some e /\ e <> 0 /\
+      ((e = gm /\ gm = ZV.gen.Pure.Err_constants_ErrContractMethodNotFound /\ eAdd = None) \/
+       (e = me /\ gm <> ZV.gen.Pure.Err_constants_ErrContractMethodNotFound /\ eAdd = Some amt) \/
+       (me = 0 /\ gm <> ZV.gen.Pure.Err_constants_ErrContractMethodNotFound /\ eAdd = Some amt /\ In e (verdicts items))))))).
+Proof. exact gen_receive_completes_or_rolls_back. Qed.
